@@ -170,6 +170,12 @@ functions! {
     BuilderFromArchive = "c2pa_builder_from_archive": [P::S(Content::Png)] -> Ret::Ptr(Builder), out=false, loads=false;
     BuilderWithDefinition = "c2pa_builder_with_definition": [P::H(Builder, Always)] -> Ret::Ptr(Builder), out=false, loads=false;
     BuilderWithArchive = "c2pa_builder_with_archive": [P::H(Builder, Always), P::S(Content::Png)] -> Ret::Ptr(Builder), out=false, loads=false;
+    // failing forms of the consuming entry points (valid handle, unusable non-handle argument): the handle is consumed all the same
+    BuilderWithDefinitionBadJson = "c2pa_builder_with_definition[malformed json]": [P::H(Builder, Always)] -> Ret::Ptr(Builder), out=false, loads=false;
+    BuilderWithDefinitionNullJson = "c2pa_builder_with_definition[json=NULL]": [P::H(Builder, Always)] -> Ret::Ptr(Builder), out=false, loads=false;
+    ReaderWithStreamNullFormat = "c2pa_reader_with_stream[format=NULL]": [P::H(Reader, Always), P::S(Content::SignedPng)] -> Ret::Ptr(Reader), out=false, loads=true;
+    ReaderWithStreamNoManifest = "c2pa_reader_with_stream[asset without manifest]": [P::H(Reader, Always), P::S(Content::Png)] -> Ret::Ptr(Reader), out=false, loads=true;
+    ReaderWithManifestDataNullData = "c2pa_reader_with_manifest_data_and_stream[data=NULL]": [P::H(Reader, Always), P::S(Content::Png)] -> Ret::Ptr(Reader), out=false, loads=true;
     BuilderSetIntent = "c2pa_builder_set_intent": [P::H(Builder, No)] -> Ret::Int, out=false, loads=false;
     BuilderSetNoEmbed = "c2pa_builder_set_no_embed": [P::H(Builder, No)] -> Ret::Void, out=false, loads=false;
     BuilderSetRemoteUrl = "c2pa_builder_set_remote_url": [P::H(Builder, No)] -> Ret::Int, out=false, loads=false;
@@ -208,6 +214,10 @@ functions! {
 }
 
 impl F {
+    /// a non-handle argument is deliberately NULL: "NullParameter" is then the expected, non-handle-related error
+    fn null_nonhandle(self) -> bool {
+        matches!(self, F::BuilderWithDefinitionNullJson | F::ReaderWithStreamNullFormat | F::ReaderWithManifestDataNullData)
+    }
     /// the reduced alphabet used for the deepest unreduced enumeration
     fn is_core(self) -> bool {
         matches!(
@@ -340,6 +350,8 @@ struct Hd {
 struct Model {
     live: Vec<Hd>,
     freed: Option<(usize, Kd)>,
+    /// address of the handle that most recently passed type validation in a call (the library may remember it)
+    last_validated: Option<usize>,
 }
 
 const POOL: usize = 3;
@@ -361,7 +373,17 @@ impl Model {
             .map(|h| format!("{}{}{}", h.kind.name(), if h.loaded { "+store" } else { "" }, if h.st == St::Unknown { "?" } else { "" }))
             .collect();
         v.sort();
-        format!("[{}] freed={}", v.join(","), self.freed.map(|f| f.1.name()).unwrap_or("-"))
+        // the history matters in one more way: which handle was validated last (a just-validated handle and a handle
+        // that has not been looked at recently must not be merged into one state)
+        let last = match self.last_validated {
+            None => "-".to_string(),
+            Some(a) => match self.live.iter().find(|h| h.addr == a) {
+                Some(h) => format!("live-{}", h.kind.name()),
+                None if self.freed.map(|f| f.0) == Some(a) => "the-freed-address".to_string(),
+                None => "gone".to_string(),
+            },
+        };
+        format!("[{}] freed={} last-validated={}", v.join(","), self.freed.map(|f| f.1.name()).unwrap_or("-"), last)
     }
 
     fn validity(&self, p: P, a: A) -> Validity {
@@ -608,6 +630,11 @@ unsafe fn call(env: &Env, f: F, a: &[usize]) -> Raw {
         F::BuilderFromArchive => ptr!(ffi::c2pa_builder_from_archive(p(0) as *mut _)),
         F::BuilderWithDefinition => ptr!(ffi::c2pa_builder_with_definition(p(0) as *mut _, cs(BUILDER_DEF).as_ptr())),
         F::BuilderWithArchive => ptr!(ffi::c2pa_builder_with_archive(p(0) as *mut _, p(1) as *mut _)),
+        F::BuilderWithDefinitionBadJson => ptr!(ffi::c2pa_builder_with_definition(p(0) as *mut _, cs("{ this is not json").as_ptr())),
+        F::BuilderWithDefinitionNullJson => ptr!(ffi::c2pa_builder_with_definition(p(0) as *mut _, std::ptr::null())),
+        F::ReaderWithStreamNullFormat => ptr!(ffi::c2pa_reader_with_stream(p(0) as *mut _, std::ptr::null(), p(1) as *mut _)),
+        F::ReaderWithStreamNoManifest => ptr!(ffi::c2pa_reader_with_stream(p(0) as *mut _, png_fmt.as_ptr(), p(1) as *mut _)),
+        F::ReaderWithManifestDataNullData => ptr!(ffi::c2pa_reader_with_manifest_data_and_stream(p(0) as *mut _, png_fmt.as_ptr(), p(1) as *mut _, std::ptr::null(), 0)),
         F::BuilderSetIntent => int!(ffi::c2pa_builder_set_intent(p(0) as *mut _, ffi::C2paBuilderIntent::Edit, ffi::C2paDigitalSourceType::Empty)),
         F::BuilderSetNoEmbed => ffi::c2pa_builder_set_no_embed(p(0) as *mut _),
         F::BuilderSetRemoteUrl => int!(ffi::c2pa_builder_set_remote_url(p(0) as *mut _, cs("http://127.0.0.1:9/m.c2pa").as_ptr())),
@@ -816,7 +843,7 @@ unsafe fn exec(env: &Env, m: &mut Model, op: &Op, judge: bool) -> Verdicts {
             }
         } else {
             if is_err && fresh {
-                if let Some(hc) = handle_error_class(&msg) {
+                if let Some(hc) = handle_error_class(&msg).filter(|c| !(f.null_nonhandle() && *c == "NullParameter")) {
                     verdicts.v.push((format!("spurious-handle-error fn={} err={hc}", f.name()), format!("{} with valid arguments failed with {msg:?}", op.text())));
                 }
             }
@@ -829,6 +856,20 @@ unsafe fn exec(env: &Env, m: &mut Model, op: &Op, judge: bool) -> Verdicts {
         }
     }
 
+    // the last handle argument (parameter order) that the model considers a valid typed handle was validated by this call,
+    // provided every parameter before it was usable too
+    {
+        let mut ok_so_far = true;
+        for (j, p) in params.iter().enumerate() {
+            let usable = matches!(validity[j], Validity::Valid | Validity::Unknown | Validity::NullNoop);
+            if ok_so_far && matches!(p, P::H(..)) && validity[j] == Validity::Valid {
+                m.last_validated = Some(raw_args[j]);
+            }
+            if !usable {
+                ok_so_far = false;
+            }
+        }
+    }
     // ---- model update ----
     let untracked = fresh && handle_error_class(&msg) == Some("UntrackedPointer");
     let mut to_kill: Vec<usize> = vec![];
@@ -953,6 +994,7 @@ unsafe fn epilogue(m: &mut Model, last: &Op, judge: bool) -> Vec<(String, String
         }
     }
     m.freed = None;
+    m.last_validated = None;
     v
 }
 
@@ -970,10 +1012,12 @@ struct Unit {
     verbose: bool,
     /// only calls of the core alphabet are tried
     core: bool,
+    /// when not empty: exactly these calls are tried after the prefix (instead of every enabled call)
+    ops: Vec<Op>,
 }
 impl Unit {
     fn to_json(&self) -> Value {
-        json!({"prefix": hist_json(&self.prefix), "only": self.only.as_ref().map(|o| o.to_json()), "want_succ": self.want_succ, "dedup": self.dedup, "verbose": self.verbose, "core": self.core})
+        json!({"prefix": hist_json(&self.prefix), "only": self.only.as_ref().map(|o| o.to_json()), "want_succ": self.want_succ, "dedup": self.dedup, "verbose": self.verbose, "core": self.core, "ops": hist_json(&self.ops)})
     }
     fn from_json(v: &Value) -> Unit {
         Unit {
@@ -983,6 +1027,7 @@ impl Unit {
             dedup: v["dedup"].as_bool().unwrap_or(false),
             verbose: v["verbose"].as_bool().unwrap_or(false),
             core: v["core"].as_bool().unwrap_or(false),
+            ops: hist_from_json(&v["ops"]),
         }
     }
 }
@@ -1054,6 +1099,7 @@ unsafe fn child_main(env: &Env, unit: &Unit, start: usize, wfd: i32) -> ! {
     child_write("R\n");
     let ops: Vec<Op> = match &unit.only {
         Some(o) => vec![o.clone()],
+        None if !unit.ops.is_empty() => unit.ops.clone(),
         None => {
             let mut m = Model::default();
             replay(&mut m);
@@ -1451,12 +1497,131 @@ fn run_units_opt(run: &Run, units: &[Unit], judge_into_run: bool, memcheck: bool
     result.into_inner().unwrap()
 }
 
+/// Targeted shapes (unreduced): for every handle kind K
+///   [constructors] · [any borrowing call on h] · [any consuming call on h, succeeding or failing] · [any borrowing call or free on the stale h]
+/// and the same with one unrelated call (c2pa_version) before or after the consuming call. A library that remembers
+/// "h was valid a moment ago" anywhere outside the registry is caught here; the BFS alone would merge the histories.
+fn targeted_units() -> Vec<Unit> {
+    let s = |f: F, a: Vec<A>| Op { f, args: a };
+    // (constructor of h, its kind)
+    let subjects: Vec<(Op, Kd)> = vec![
+        (s(F::SettingsNew, vec![]), Kd::Settings),
+        (s(F::CtxBuilderNew, vec![]), Kd::CtxBuilder),
+        (s(F::ContextNew, vec![]), Kd::Context),
+        (s(F::ReaderNew, vec![]), Kd::Reader),
+        (s(F::ReaderFromStream, vec![A::Amb]), Kd::Reader),
+        (s(F::BuilderFromJson, vec![]), Kd::Builder),
+        (s(F::SignerFromInfo, vec![]), Kd::Signer),
+        (s(F::ResolverCreate, vec![]), Kd::Resolver),
+        (s(F::Version, vec![]), Kd::Str),
+        (s(F::Ed25519Sign, vec![]), Kd::Bytes),
+    ];
+    // an optional helper handle created first, so that two-handle calls can validate h
+    let helpers: Vec<Option<(Op, Kd)>> = vec![
+        None,
+        Some((s(F::CtxBuilderNew, vec![]), Kd::CtxBuilder)),
+        Some((s(F::BuilderFromJson, vec![]), Kd::Builder)),
+        Some((s(F::SettingsNew, vec![]), Kd::Settings)),
+        Some((s(F::SignerFromInfo, vec![]), Kd::Signer)),
+    ];
+    let hd = |addr: usize, kind: Kd| Hd { addr, kind, loaded: false, st: St::Live };
+    let mut units = vec![];
+    for (ctor, k) in &subjects {
+        for helper in &helpers {
+            let mut live = vec![];
+            let mut prefix = vec![];
+            if let Some((hop, hk)) = helper {
+                live.push(hd(0x1000, *hk));
+                prefix.push(hop.clone());
+            }
+            live.push(hd(0x2000, *k));
+            prefix.push(ctor.clone());
+            let h = (live.len() - 1) as u8;
+            let before = Model { live: live.clone(), freed: None, last_validated: None };
+            let uses_helper = |o: &Op| helper.is_some() && o.args.iter().any(|a| *a == A::Slot(0));
+            let all = before.enabled();
+            let borrows: Vec<&Op> = all
+                .iter()
+                .filter(|o| {
+                    let ps = o.f.params();
+                    let on_h = o.args.iter().enumerate().any(|(j, a)| *a == A::Slot(h) && matches!(ps[j], P::H(kk, Consume::No) if kk == *k));
+                    let consumes_h = o.args.iter().enumerate().any(|(j, a)| *a == A::Slot(h) && matches!(ps[j], P::Any | P::H(_, Consume::OnSuccess | Consume::Always)));
+                    let others_ok = o.args.iter().enumerate().all(|(j, a)| *a == A::Slot(h) || *a == A::Null || before.validity(ps[j], *a) == Validity::Valid);
+                    on_h && !consumes_h && others_ok
+                })
+                .collect();
+            let consumes: Vec<&Op> = all
+                .iter()
+                .filter(|o| {
+                    let ps = o.f.params();
+                    // the other arguments: valid or NULL (the failing forms); the remaining misuse classes of the other
+                    // arguments are covered by the BFS and add nothing to this shape
+                    o.args.iter().all(|a| matches!(a, A::Slot(_) | A::Null | A::Amb)) && o.args.iter().enumerate().any(|(j, a)| {
+                        *a == A::Slot(h)
+                            && match ps[j] {
+                                // the typed frees all go through the same cimpl_free; two of them stand for the family here
+                                P::Any => matches!(o.f, F::Free | F::ReaderFree),
+                                P::H(kk, Consume::OnSuccess | Consume::Always) => kk == *k,
+                                _ => false,
+                            }
+                    })
+                })
+                .collect();
+            // calls on the stale address afterwards
+            let mut after_live = live.clone();
+            after_live.pop();
+            let after = Model { live: after_live, freed: Some((0x2000, *k)), last_validated: None };
+            let finals: Vec<Op> = after
+                .enabled()
+                .into_iter()
+                .filter(|o| {
+                    let ps = o.f.params();
+                    o.args.iter().enumerate().any(|(j, a)| {
+                        *a == A::Freed
+                            && match ps[j] {
+                                P::Any => o.f == F::Free,
+                                P::H(kk, _) => kk == *k,
+                                P::S(_) => false,
+                            }
+                    })
+                })
+                .collect();
+            if finals.is_empty() {
+                continue;
+            }
+            for b in &borrows {
+                for c in &consumes {
+                    if helper.is_some() && !(uses_helper(b) || uses_helper(c)) {
+                        continue; // already covered without the helper
+                    }
+                    let u = s(F::Version, vec![]);
+                    // the variants with an unrelated call in between: for the first two borrowing calls of each setup
+                    let nvar = if borrows.iter().position(|x| x == b).unwrap_or(9) < 2 { 3 } else { 1 };
+                    for variant in 0..nvar {
+                        let mut p = prefix.clone();
+                        p.push((*b).clone());
+                        if variant == 1 {
+                            p.push(u.clone());
+                        }
+                        p.push((*c).clone());
+                        if variant == 2 {
+                            p.push(u.clone());
+                        }
+                        units.push(Unit { prefix: p, only: None, want_succ: false, dedup: false, verbose: false, core: false, ops: finals.clone() });
+                    }
+                }
+            }
+        }
+    }
+    units
+}
+
 pub fn run(run: &Run, replay: Option<&Value>) {
     if let Ok(spec) = std::env::var("VERIF_C31_WORKER") {
         worker_main(&spec);
     }
     run.rule("call histories over 65 exported C functions; every pointer argument from {each live handle (right/wrong type), last freed address, NULL, foreign heap block}, stream arguments from {fresh stream, live non-stream handle, released stream, NULL, foreign}, one deviating argument per call, pool <= 3. \
-              (1) all sequences over a 22-function core alphabet to depth 2 (quick) / 3 (thorough) unreduced, thorough also all sequences over the full alphabet to depth 2; (2) BFS to depth 3 (quick) / 5 (thorough) with one representative history per abstract model state; every sequence closed by an epilogue freeing all model-live handles twice; thorough re-executes the BFS sequences of length <= 3 under valgrind memcheck. \
+              (1) all sequences over a 22-function core alphabet to depth 2 (quick) / 3 (thorough) unreduced, thorough also all sequences over the full alphabet to depth 2; (1c) every sequence [constructors][borrowing call on h][consuming call on h, ok or failing][call on the stale h] for every handle kind, also with one unrelated call in between; (2) BFS to depth 3 (quick) / 5 (thorough) with one representative history per abstract model state (pool kinds, statuses, kind of the freed address, which handle was validated last); every sequence closed by an epilogue freeing all model-live handles twice; thorough re-executes the BFS sequences of length <= 3 under valgrind memcheck. \
               non-trivial = executed sequences whose last call has at least one handle argument (valid or not) taken from a non-empty pool or the freed address, i.e. whose verdict depends on the history");
     run.assume("c2pa_free(NULL) and the typed free functions with NULL are documented no-ops (return 0, no error); they are not counted as 'invalid argument'");
     run.assume("typed free functions (c2pa_reader_free, ...) return void and are documented as equivalent to c2pa_free: given a live handle of another type they release it; for void functions the error indicator is the presence of a fresh c2pa_error()");
@@ -1469,7 +1634,7 @@ pub fn run(run: &Run, replay: Option<&Value>) {
         if c["expand"].as_bool() == Some(true) {
             // cost probe: every call enabled after the given history, as one unit (not a verdict)
             let t0 = std::time::Instant::now();
-            let r = run_units(run, &[Unit { prefix: h, only: None, want_succ: false, dedup: false, verbose: c["verbose"].as_bool() == Some(true), core: false }], true);
+            let r = run_units(run, &[Unit { prefix: h, only: None, want_succ: false, dedup: false, verbose: c["verbose"].as_bool() == Some(true), core: false, ops: vec![] }], true);
             println!("expanded {} calls in {:.2}s", r.executed, t0.elapsed().as_secs_f64());
             dedup_flush(run);
             run.evals(r.executed);
@@ -1481,7 +1646,7 @@ pub fn run(run: &Run, replay: Option<&Value>) {
             kit::ev::machinery("C31 replay: empty history");
         }
         run.eval();
-        let unit = Unit { prefix: h[..h.len() - 1].to_vec(), only: Some(h[h.len() - 1].clone()), want_succ: false, dedup: false, verbose: true, core: false };
+        let unit = Unit { prefix: h[..h.len() - 1].to_vec(), only: Some(h[h.len() - 1].clone()), want_succ: false, dedup: false, verbose: true, core: false, ops: vec![] };
         println!("history: {}", h.iter().map(|o| o.text()).collect::<Vec<_>>().join(" ; "));
         run_units(run, &[unit], true);
         dedup_flush(run);
@@ -1495,7 +1660,7 @@ pub fn run(run: &Run, replay: Option<&Value>) {
         let s = |f: F, a: Vec<A>| Op { f, args: a };
         let base = vec![s(F::BuilderFromJson, vec![]), s(F::SignerFromInfo, vec![])];
         let probe = s(F::BuilderSign, vec![A::Slot(0), A::Amb, A::Amb, A::Slot(1)]);
-        let u = Unit { prefix: base, only: Some(probe), want_succ: true, dedup: false, verbose: false, core: false };
+        let u = Unit { prefix: base, only: Some(probe), want_succ: true, dedup: false, verbose: false, core: false, ops: vec![] };
         let collect = |u: &Unit| {
             let r = run_units(run, &[u.clone()], false);
             r.succ.get(&0).cloned().unwrap_or_default()
@@ -1514,8 +1679,8 @@ pub fn run(run: &Run, replay: Option<&Value>) {
         // development aid: only the memcheck machinery, on two small units
         let s = |f: F, a: Vec<A>| Op { f, args: a };
         let units = vec![
-            Unit { prefix: vec![], only: None, want_succ: false, dedup: false, verbose: false, core: true },
-            Unit { prefix: vec![s(F::ReaderFromStream, vec![A::Amb])], only: None, want_succ: false, dedup: false, verbose: false, core: true },
+            Unit { prefix: vec![], only: None, want_succ: false, dedup: false, verbose: false, core: true, ops: vec![] },
+            Unit { prefix: vec![s(F::ReaderFromStream, vec![A::Amb])], only: None, want_succ: false, dedup: false, verbose: false, core: true, ops: vec![] },
         ];
         let r = run_units_opt(run, &units, true, true);
         println!("memcheck test: {} sequences", r.executed);
@@ -1543,7 +1708,7 @@ pub fn run(run: &Run, replay: Option<&Value>) {
         let mut count = 0u64;
         for depth in 1..=d_full {
             let last = depth == d_full;
-            let units: Vec<Unit> = frontier.iter().map(|h| Unit { prefix: h.clone(), only: None, want_succ: !last, dedup: false, verbose: false, core: false }).collect();
+            let units: Vec<Unit> = frontier.iter().map(|h| Unit { prefix: h.clone(), only: None, want_succ: !last, dedup: false, verbose: false, core: false, ops: vec![] }).collect();
             let r = run_units(run, &units, true);
             for (k, v) in &r.times {
                 let e = times.entry(k.clone()).or_insert((0, 0));
@@ -1575,7 +1740,7 @@ pub fn run(run: &Run, replay: Option<&Value>) {
         let mut count = 0u64;
         for depth in 1..=d_core {
             let last = depth == d_core;
-            let units: Vec<Unit> = frontier.iter().map(|h| Unit { prefix: h.clone(), only: None, want_succ: !last, dedup: false, verbose: false, core: true }).collect();
+            let units: Vec<Unit> = frontier.iter().map(|h| Unit { prefix: h.clone(), only: None, want_succ: !last, dedup: false, verbose: false, core: true, ops: vec![] }).collect();
             let r = run_units(run, &units, depth > d_full);
             for (k, v) in &r.times {
                 let e = times.entry(k.clone()).or_insert((0, 0));
@@ -1603,6 +1768,29 @@ pub fn run(run: &Run, replay: Option<&Value>) {
         run.space(&format!("every call sequence over the 22-function core alphabet up to depth {d_core} (no reduction)"), count, true);
     }
 
+    // ---- (1c) targeted use / consume / use-again shapes, unreduced (both tiers) ----
+    {
+        let units = targeted_units();
+        let r = run_units(run, &units, true);
+        for (k, v) in &r.times {
+            let e = times.entry(k.clone()).or_insert((0, 0));
+            e.0 += v.0;
+            e.1 += v.1;
+        }
+        run.evals(r.executed);
+        distinct_sequences += r.executed;
+        distinct_nontrivial += r.nontrivial;
+        println!("C31 targeted borrow/consume/borrow-stale shapes: {} prefixes, {} sequences executed", units.len(), r.executed);
+        run.space(
+            "for every handle kind: [constructors] x [every borrowing call on h] x [every consuming call on h, succeeding or failing] x [every borrowing call / c2pa_free on the stale h], for the first two borrowing calls of each setup also with c2pa_version() before or after the consuming call (no reduction)",
+            r.executed,
+            true,
+        );
+        if let Some(u) = units.iter().find(|u| u.prefix.len() >= 3) {
+            run.sample(json!({"targeted_prefix": u.prefix.iter().map(|o| o.text()).collect::<Vec<_>>(), "then_each_of": u.ops.iter().take(4).map(|o| o.text()).collect::<Vec<_>>()}));
+        }
+    }
+
     // ---- (2) BFS over abstract states to depth d_bfs ----
     {
         let mut seen: BTreeMap<String, Vec<Op>> = BTreeMap::new();
@@ -1614,7 +1802,7 @@ pub fn run(run: &Run, replay: Option<&Value>) {
                 break;
             }
             let last = depth == d_bfs;
-            let units: Vec<Unit> = frontier.iter().map(|h| Unit { prefix: h.clone(), only: None, want_succ: !last, dedup: true, verbose: false, core: false }).collect();
+            let units: Vec<Unit> = frontier.iter().map(|h| Unit { prefix: h.clone(), only: None, want_succ: !last, dedup: true, verbose: false, core: false, ops: vec![] }).collect();
             // sequences of length <= d_full were already judged (and their outcomes counted) in phase (1)
             let r = run_units(run, &units, depth > d_full);
             for (k, v) in &r.times {
@@ -1670,14 +1858,14 @@ pub fn run(run: &Run, replay: Option<&Value>) {
         if have {
             // baseline: a unit of valid calls must be clean, otherwise memcheck noise would be blamed on the library
             let s = |f: F, a: Vec<A>| Op { f, args: a };
-            let base = Unit { prefix: vec![s(F::BuilderFromJson, vec![]), s(F::SignerFromInfo, vec![])], only: Some(s(F::BuilderSign, vec![A::Slot(0), A::Amb, A::Amb, A::Slot(1)])), want_succ: false, dedup: false, verbose: false, core: false };
+            let base = Unit { prefix: vec![s(F::BuilderFromJson, vec![]), s(F::SignerFromInfo, vec![])], only: Some(s(F::BuilderSign, vec![A::Slot(0), A::Amb, A::Amb, A::Slot(1)])), want_succ: false, dedup: false, verbose: false, core: false, ops: vec![] };
             let before = DEDUP.lock().unwrap().keys().filter(|k| k.starts_with("memcheck")).count();
             run_units_opt(run, &[base], true, true);
             let after = DEDUP.lock().unwrap().keys().filter(|k| k.starts_with("memcheck")).count();
             if after != before {
                 kit::ev::machinery("C31: valgrind reports errors on a fully valid sign sequence; memcheck pass cannot be trusted");
             }
-            let units: Vec<Unit> = memcheck_prefixes.iter().map(|h| Unit { prefix: h.clone(), only: None, want_succ: false, dedup: false, verbose: false, core: false }).collect();
+            let units: Vec<Unit> = memcheck_prefixes.iter().map(|h| Unit { prefix: h.clone(), only: None, want_succ: false, dedup: false, verbose: false, core: false, ops: vec![] }).collect();
             let r = run_units_opt(run, &units, true, true);
             run.evals(r.executed);
             run.space("memcheck: every enabled call after every BFS representative history of length <= 2, re-executed under valgrind", r.executed, true);
